@@ -38,8 +38,9 @@ PROVED = {
     'ShardState': ('block', 'ShardState', 'c16_src_ShardState', 'blk'),
     'AccountBlock': ('account', 'AccountBlock', 'c16_src_AccountBlock', 'blk'),
     'BlockExtra': ('block', 'BlockExtra', 'c16_src_BlockExtra', 'blk'),
+    'Block': ('block', 'Block', 'c16_src_Block', 'blk'),
 }
-N_VALIDATE = {'BlockInfo': 16, 'ConsensusConfig': 12, 'McStateExtra': 8, 'ShardStateUnsplit': 8, 'McBlockExtra': 8, 'ShardState': 6, 'AccountBlock': 8, 'BlockExtra': 6}
+N_VALIDATE = {'BlockInfo': 16, 'ConsensusConfig': 12, 'McStateExtra': 8, 'ShardStateUnsplit': 8, 'McBlockExtra': 8, 'ShardState': 6, 'AccountBlock': 8, 'BlockExtra': 6, 'Block': 6}
 
 
 def label(cls):
